@@ -183,7 +183,8 @@ var c01Calls = []call{
 	{Kind: "delete"},
 }
 
-var c01Targets = []string{"a", "ab", "zz", "_internal/x", "_internal/a", " a"}
+// "ab/../a" and "a/" are other spellings of nothing: names are opaque strings, not paths
+var c01Targets = []string{"a", "ab", "zz", "_internal/x", "_internal/a", " a", "ab/../a", "a/"}
 
 func checkC01(t *testing.T, env *report.Env, rep *report.Report) {
 	depth := 2
@@ -194,7 +195,7 @@ func checkC01(t *testing.T, env *report.Env, rep *report.Report) {
 	fs := &failSet{}
 	sets := ruleUniverse(env.Thorough())
 	sec := rep.Add(&report.Section{Name: fmt.Sprintf("acl-all-rule-sets-depth%d", depth), Engine: "seqx", Exhaustive: true, Extra: map[string]int64{},
-		Rule:  "every database state of the BFS (names a, ab) × every rule set of the universe × 17 operation instances × targets {a, ab, zz, _internal/x, _internal/a, space-a}, at the db.DB API and through the HTTP handlers; reference decision = independent glob/ACL evaluator; non-trivial = evaluations that the reference allows (the call must then behave exactly like the superuser's)",
+		Rule:  "every database state of the BFS (names a, ab) × every rule set of the universe × 17 operation instances × targets {a, ab, zz, _internal/x, _internal/a, space-a, ab/../a, a/}; an allowed call changes only the name it was given and a name the database does not hold is not found however it is spelled, at the db.DB API and through the HTTP handlers; reference decision = independent glob/ACL evaluator; non-trivial = evaluations that the reference allows (the call must then behave exactly like the superuser's)",
 		Bound: fmt.Sprintf("depth %d; %d rule sets", depth, len(sets))})
 	states, trans := BFS(alpha, depth, 16, nil, fs.add)
 	sec.States, sec.Transitions = int64(len(states)), trans
@@ -298,6 +299,16 @@ func checkC01(t *testing.T, env *report.Env, rep *report.Report) {
 							if !model.Allow(ref, c.action(), n) {
 								fs.add("effect-on-unpermitted-name:"+c.Kind, fmt.Sprintf("%s: the call changed %q, on which no rule of the caller allows %s", desc, n, c.action()), s.Hist)
 							}
+						}
+						// a call addresses exactly the name it was given: it changes no other name, and a name
+						// the database does not hold is not found, however it is spelled
+						for _, n := range changedNames(preState, hx.DumpKey(dd)) {
+							if n != name {
+								fs.add("effect-on-another-name:"+c.Kind, fmt.Sprintf("%s: the call was addressed to %q and changed %q", desc, name, n), s.Hist)
+							}
+						}
+						if _, held := s.Model.S[name]; !held && !strings.HasPrefix(name, model.ReservedPrefix) && !c.mutating() && got.Class == model.OK {
+							fs.add("absent-name-served:"+c.Kind, fmt.Sprintf("%s: the database holds no secret of that name, yet the call returned %q", desc, got.Text), s.Hist)
 						}
 						if got.Class != want.Class || got.Text != want.Text || hx.DumpKey(dd) != wantState {
 							fs.add("allowed-differs:"+c.Kind, fmt.Sprintf("%s: got %v %q state %s; superuser gets %v %q state %s", desc, got.Class, got.Text, hx.DumpKey(dd), want.Class, want.Text, wantState), s.Hist)
